@@ -149,6 +149,10 @@ func (r *Results) Next() bool {
 	select {
 	case batch, ok := <-r.rowChan:
 		if !ok {
+			// rowChan closes just before done does (markWorkersDone): wait for
+			// the teardown goroutine's last step so that no goroutine of this
+			// query is still running once Next has reported completion.
+			<-r.done
 			// Clean completion: all workers finished and every buffered row
 			// has been delivered. Recorded errors (failed blocks, a failed
 			// MetaStore iteration), if any, are the terminal state; the query
